@@ -563,6 +563,10 @@ func (s *Session) onPreprocess(resp *Response, req *Request) (continueProcess bo
 		if err2 != nil {
 			resp.Status = err2.Error()
 		}
+		if s.authMode == auth.DigestAuth {
+			// 验证失败时 nonce 已更新，质询必须携带新的 nonce，否则客户端永远落后一个 nonce 而无法再通过认证
+			resp.SetDigestAuth(realm, s.nonce)
+		}
 		err = s.response(resp)
 		return false, err
 	}
